@@ -203,13 +203,8 @@ theorem frozen_verify (b : Block) : Frozen (fun s => (verify s b).1) := by
   intro s h
   show (verify s b).1.crashed = true ∧ (verify s b).1.disk = s.disk
   unfold verify
-  split
-  · exact ⟨h, rfl⟩
-  · split
-    · exact ⟨h, rfl⟩
-    · split
-      · exact ⟨h, rfl⟩
-      · split <;> exact ⟨h, rfl⟩
+  repeat' split
+  all_goals exact ⟨h, rfl⟩
 
 theorem frozen_insertA (b : Block) : Frozen (fun s => insertA s b) :=
   frozen_writes _
